@@ -121,6 +121,15 @@ async fn doc_cursor(
     Ok(None)
 }
 
+/// Verification hook: the text the document broker currently holds for a document.
+#[cfg(feature = "verif")]
+pub async fn verif_text(
+    doctx: Sender<DocumentRequest>,
+    params: lsp_types::TextDocumentIdentifier,
+) -> Result<Option<String>> {
+    Ok(get_doc(params.uri, doctx).await?.map(|doc| doc.text))
+}
+
 pub trait ToSpl {
     /// Turns input into a SPL markdown code block
     fn to_spl(&self) -> String;
